@@ -256,7 +256,7 @@ def rule_assign(prog, rep):
         table = {}
     # the deciding table is read from the CFG (self = arg1, target = arg2; the recursion is
     # item(self).is_assignable_to(item(target))); the typed-HIR table only supplies line numbers
-    mir = _mir_pair_table(fn, 1, 2, r"is_assignable_to$")
+    mir = _mir_pair_table(prog.inline(fn, keep=r"is_assignable_to$"), 1, 2, r"is_assignable_to$")
     for (s, t), res in sorted(mir.items()):
         line = table.get((t, s), (None, None))[1]
         table[(t, s)] = (_cell_class(res, "a", "b"), line)
@@ -342,7 +342,9 @@ def rule_impl(prog, rep):
         table = _tuple_match_table(prog, rep, fn, "C29.IMPL", "interface_field_type", "impl_field_type", classify)
     except Undecided:
         table = {}
-    mir = _mir_pair_table(fn, 2, 3, r"is_valid_implementation_field_type$")
+    # local helpers (a `same or subtype` function) are folded in first, so the table is that of
+    # the behaviour, not of where the comparison was written
+    mir = _mir_pair_table(prog.inline(fn, keep=r"is_valid_implementation_field_type$|Schema::is_subtype$"), 2, 3, r"is_valid_implementation_field_type$")
     for (t, s), res in sorted(mir.items()):
         line = table.get((t, s), (None, None))[1]
         table[(t, s)] = (_cell_class(res, "a", "b"), line)
